@@ -99,7 +99,7 @@ pub fn cursor_write() {
         let r = WriteWords::<u8>::write(&mut c, w);
         if pos == len {
             assert!(r.is_err(), "C17: write into a full cursor must fail");
-            assert!(Pos::pos(&c) == pos, "C17: failed write moved the cursor");
+            assert!(Pos::pos(&c) == pos, "C17/C09: failed write moved the cursor (a coder on this backend is no longer intact after a refused write)");
         } else {
             assert!(r.is_ok(), "C17: write with space left must succeed");
             assert!(Pos::pos(&c) == pos + 1, "C17: write must advance the cursor");
